@@ -202,7 +202,7 @@ def parse_assumptions(out):
             cur = []
             blocks.append(cur)
         elif cur is not None:
-            m = re.match(r"^([A-Za-z_][\w.']*)\s*:", line)
+            m = re.match(r"^([A-Za-z_][\w.']*)\s*(:|$)", line)
             if m:
                 cur.append(m.group(1))
             elif line.strip() == "" or not line.startswith(" "):
@@ -341,6 +341,27 @@ def cargo_build(crate, group, timeout=3600, bins=None):
     """Build harness crate /verif/harness/<crate> against /repo's current working tree.
     Returns (ok, path_to_binary_dir, log)."""
     cdir = os.path.join(ROOT, "harness", crate)
+    if REPO != "/repo":
+        # checking an alternative checkout (seeded-change experiments): build a copy of the
+        # harness (and of the sibling crates it refers to by relative path) whose path
+        # dependencies point at that checkout, into a separate target directory
+        alt = os.path.join(WORK, "harness_alt")
+        shutil.rmtree(os.path.join(alt, crate), ignore_errors=True)
+        for c in os.listdir(os.path.join(ROOT, "harness")):
+            src = os.path.join(ROOT, "harness", c)
+            dst = os.path.join(alt, c)
+            if c == crate or not os.path.exists(dst):
+                shutil.rmtree(dst, ignore_errors=True)
+                shutil.copytree(src, dst, ignore=shutil.ignore_patterns("target", "Cargo.lock"))
+                for d, _, fs in os.walk(dst):
+                    for f in fs:
+                        if f.endswith((".toml", ".rs")):
+                            p = os.path.join(d, f)
+                            s = open(p, errors="replace").read()
+                            if "/repo" in s:
+                                open(p, "w").write(s.replace('"/repo/', '"%s/' % REPO).replace("'/repo/", "'%s/" % REPO))
+        cdir = os.path.join(alt, crate)
+        group = group + "-alt"
     lock = os.path.join(cdir, "Cargo.lock")
     if not os.path.exists(lock):
         shutil.copy(os.path.join(REPO, "Cargo.lock"), lock)
